@@ -146,11 +146,17 @@ template <class Prm> void configure(Prm &prm, ptree &t, int cfg) {
 // ------------------------------------------------------------------ results
 struct result {
     bool threw = false; std::string exc;
-    long long it = -1; vr::digest res, x, px;
+    long long it = -1, bytes = -1; vr::digest res, x, px, txt;
     void json(vr::obj &o, const std::string &sfx) const {
         o.b("threw" + sfx, threw).str("exc" + sfx, exc).i("it" + sfx, it)
          .i("res_lo" + sfx, res.lo()).i("res_hi" + sfx, res.hi())
-         .i("x_lo" + sfx, x.lo()).i("x_hi" + sfx, x.hi()).i("px_lo" + sfx, px.lo()).i("px_hi" + sfx, px.hi());
+         .i("x_lo" + sfx, x.lo()).i("x_hi" + sfx, x.hi()).i("px_lo" + sfx, px.lo()).i("px_hi" + sfx, px.hi())
+         .i("bytes" + sfx, bytes).i("txt_lo" + sfx, txt.lo()).i("txt_hi" + sfx, txt.hi());
+    }
+    // the report text (operator<<) and the memory footprint (bytes()) go through the wrappers' switches too
+    template <class Obj> void describe(const Obj &o) {
+        std::ostringstream os; os << o; std::string t = os.str(); txt.bytes(t.data(), t.size());
+        bytes = (long long)(amgcl::backend::bytes(o) % 1000000007ull);
     }
 };
 
@@ -166,6 +172,7 @@ template <class Solver, class Prm> result run_solver(const problem &pb, const Pr
         amgcl::backend::numa_vector<double> f(pb.rhs), y(pb.rhs.size());
         solve.precond().apply(f, y);
         r.px.vec(y.data(), y.size());
+        r.describe(solve);
     } catch (const std::exception &e) { r.threw = true; r.exc = e.what(); }
     return r;
 }
